@@ -1027,9 +1027,23 @@ fn dispatch<C: CI>(op: Op, a: &[&[u8]]) -> R<Vec<Vec<u8>>> {
                 entries.push((PublicKey::<C>::try_from(a[i]).map_err(e)?, a[i + 1].to_vec(), ProofOfPossession::<C>::try_from(a[i + 2]).map_err(e)?));
                 i += 3;
             }
+            let nested_kind = *arg(a, 1)?.first().ok_or("kind")?;
             let verdicts = std::cell::RefCell::new(Vec::<u8>::new());
+            let inner_list: Vec<(PkPt<C>, Vec<u8>)> = entries.iter().take(2).map(|(pk, m, _)| (pk.0, m.clone())).collect();
+            let outer_point = match agg {
+                AggregateSignature::Basic(s) | AggregateSignature::MessageAugmentation(s) | AggregateSignature::ProofOfPossession(s) => s,
+            };
             let it = entries.iter().map(|(pk, m, pop)| {
-                verdicts.borrow_mut().push(pop.verify(*pk).is_ok() as u8);
+                let v = match nested_kind {
+                    // the entry's proof of possession
+                    1 => pop.verify(*pk).is_ok(),
+                    // another aggregate verification (Basic scheme, the first two entries of this list) — its verdict does not
+                    // matter, only that it ran on this thread while the outer one is in progress
+                    2 => <C as BlsSignatureBasic>::aggregate_verify(inner_list.iter().map(|(p, m)| (*p, m.as_slice())), outer_point).is_ok(),
+                    // an ordinary signature verification of the entry's proof point as a PoP-scheme signature over the message
+                    _ => Signature::<C>::ProofOfPossession(pop.0).verify(pk, m).is_ok(),
+                };
+                verdicts.borrow_mut().push(v as u8);
                 (pk.0, m.clone())
             });
             let r = match agg {
